@@ -165,11 +165,11 @@ def schema_case(args):
             except xmlschema.XMLSchemaException as e:
                 return None, e
 
-    def valid_attr_names(s):
+    def valid_attr_names(s, el="e"):
         out = []
         for ns, loc in NAMES:
             at = f'xmlns:n="{URI[ns]}" n:{loc}="1"' if ns else f'{loc}="1"'
-            if s.is_valid(f'<t:e xmlns:t="urn:T" {at}/>'):
+            if s.is_valid(f'<t:{el} xmlns:t="urn:T" {at}/>'):
                 out.append((ns, loc))
         return sorted(out)
 
@@ -240,6 +240,27 @@ def schema_case(args):
             got = valid_attr_names(s)
             if got != want:
                 bad.append(("attribute groups: validated names differ from the intersection", got))
+        # two REFERENCED groups in one definition, each also used on its own: the intersection is a new
+        # wildcard - the operands keep their own sets (the operations of Wildcards.tla are functions)
+        s, err = build(
+            f'<xs:attributeGroup name="g1"><xs:anyAttribute {ax} processContents="skip"/></xs:attributeGroup>'
+            f'<xs:attributeGroup name="g2"><xs:anyAttribute {ay} processContents="skip"/></xs:attributeGroup>'
+            f'<xs:complexType name="ct"><xs:attributeGroup ref="t:g1"/><xs:attributeGroup ref="t:g2"/></xs:complexType>'
+            f'<xs:complexType name="c1"><xs:attributeGroup ref="t:g1"/></xs:complexType>'
+            f'<xs:complexType name="c2"><xs:attributeGroup ref="t:g2"/></xs:complexType>'
+            f'<xs:element name="e" type="t:ct"/><xs:element name="e1" type="t:c1"/><xs:element name="e2" type="t:c2"/>')
+        if s is None:
+            if not rec["inexpr"]:
+                bad.append((f"two-group schema refused ({type(err).__name__})", str(err)[:200]))
+        else:
+            got = valid_attr_names(s)
+            if got != want:
+                bad.append(("two referenced groups: validated names differ from the intersection", got))
+            for el, w in (("e1", rec["ops"][0]), ("e2", rec["ops"][1])):
+                got1, want1 = valid_attr_names(s, el), sorted(map(tuple, w))
+                if got1 != want1:
+                    bad.append((f"two referenced groups: the type that uses only one of them ({el}) admits {got1}, "
+                                f"its own wildcard denotes {want1}: an operand was modified", got1))
     return bad
 
 
